@@ -1,6 +1,996 @@
-//! C10 — monitor not written yet.
-use crate::ctx::Ctx;
+//! C10 — honest proofs and the documented constraint patterns always verify.
+//!
+//! Everything here is built with the library's own provers. Refuting events: an honestly built
+//! commitment / signature / signature-request proof or range constraint fails its verifier under
+//! the challenge derived from the finished proof; the challenge derived from the builder differs
+//! from the one derived from the proof; a documented constraint pattern (partial opening, equality
+//! within / across proofs, secret sum, public addition, public product, range link) does not hold
+//! on the response scalars.
+
+use crate::ctx::{guard, hex, Ctx, PanicInfo};
+use crate::fixtures::{self, Merchant};
+use crate::props::util::{class_u64, repo_rel};
+use crate::refs::{q_minus_1, sc};
+use crate::tracer::trace;
+use bls12_381::{G1Projective, G2Projective, Scalar};
+use ff::Field;
+use rand_chacha::ChaCha20Rng;
+use rand_core::RngCore;
+use serde_json::{json, Value};
+use zkchannels_crypto::{
+    pedersen::PedersenParameters,
+    pointcheval_sanders::KeyPair,
+    proofs::{
+        verif_hooks, Challenge, ChallengeBuilder, CommitmentProof, CommitmentProofBuilder, RangeConstraint, RangeConstraintBuilder,
+        RangeConstraintParameters, SignatureProof, SignatureProofBuilder, SignatureRequestProof, SignatureRequestProofBuilder,
+    },
+    Message,
+};
+
+type R = ChaCha20Rng;
+
+#[derive(Debug, Clone, Copy, PartialEq, Eq)]
+enum Ty {
+    ComG1,
+    ComG2,
+    Sig,
+    Req,
+}
+
+impl Ty {
+    const ALL: [Ty; 4] = [Ty::ComG1, Ty::ComG2, Ty::Sig, Ty::Req];
+    fn name(self) -> &'static str {
+        match self {
+            Ty::ComG1 => "CommitmentProof<G1>",
+            Ty::ComG2 => "CommitmentProof<G2>",
+            Ty::Sig => "SignatureProof",
+            Ty::Req => "SignatureRequestProof",
+        }
+    }
+    fn short(self) -> &'static str {
+        match self {
+            Ty::ComG1 => "ComG1",
+            Ty::ComG2 => "ComG2",
+            Ty::Sig => "Sig",
+            Ty::Req => "Req",
+        }
+    }
+}
+
+/// Keys and parameters for one tuple length.
+struct Env<const N: usize> {
+    kp: KeyPair<N>,
+    p1: PedersenParameters<G1Projective, N>,
+    p2: PedersenParameters<G2Projective, N>,
+}
+
+impl<const N: usize> Env<N> {
+    fn new(rng: &mut R) -> Self {
+        Env {
+            kp: KeyPair::new(rng),
+            p1: PedersenParameters::new(rng),
+            p2: PedersenParameters::new(rng),
+        }
+    }
+}
+
+enum Bld<const N: usize> {
+    C1(CommitmentProofBuilder<G1Projective, N>),
+    C2(CommitmentProofBuilder<G2Projective, N>),
+    S(SignatureProofBuilder<N>),
+    R(SignatureRequestProofBuilder<N>),
+}
+
+enum Prf<const N: usize> {
+    C1(CommitmentProof<G1Projective, N>),
+    C2(CommitmentProof<G2Projective, N>),
+    S(SignatureProof<N>),
+    R(SignatureRequestProof<N>),
+}
+
+impl<const N: usize> Bld<N> {
+    /// the library's commitment phase (for signature proofs: on a fresh honest signature)
+    fn new(ty: Ty, rng: &mut R, env: &Env<N>, msg: &[Scalar; N], cs: &[Option<Scalar>; N]) -> Self {
+        let m = Message::new(*msg);
+        match ty {
+            Ty::ComG1 => Bld::C1(CommitmentProofBuilder::generate_proof_commitments(rng, m, cs, &env.p1)),
+            Ty::ComG2 => Bld::C2(CommitmentProofBuilder::generate_proof_commitments(rng, m, cs, &env.p2)),
+            Ty::Sig => {
+                let sig = m.sign(rng, &env.kp);
+                Bld::S(SignatureProofBuilder::generate_proof_commitments(rng, m, sig, cs, env.kp.public_key()))
+            }
+            Ty::Req => Bld::R(SignatureRequestProofBuilder::generate_proof_commitments(rng, m, cs, env.kp.public_key())),
+        }
+    }
+    fn ty(&self) -> Ty {
+        match self {
+            Bld::C1(_) => Ty::ComG1,
+            Bld::C2(_) => Ty::ComG2,
+            Bld::S(_) => Ty::Sig,
+            Bld::R(_) => Ty::Req,
+        }
+    }
+    fn cs(&self) -> [Scalar; N] {
+        match self {
+            Bld::C1(b) => *b.conjunction_commitment_scalars(),
+            Bld::C2(b) => *b.conjunction_commitment_scalars(),
+            Bld::S(b) => *b.conjunction_commitment_scalars(),
+            Bld::R(b) => *b.conjunction_commitment_scalars(),
+        }
+    }
+    fn feed(&self, cb: ChallengeBuilder) -> ChallengeBuilder {
+        match self {
+            Bld::C1(b) => cb.with(b),
+            Bld::C2(b) => cb.with(b),
+            Bld::S(b) => cb.with(b),
+            Bld::R(b) => cb.with(b),
+        }
+    }
+    fn respond(self, ch: Challenge) -> Prf<N> {
+        match self {
+            Bld::C1(b) => Prf::C1(b.generate_proof_response(ch)),
+            Bld::C2(b) => Prf::C2(b.generate_proof_response(ch)),
+            Bld::S(b) => Prf::S(b.generate_proof_response(ch)),
+            Bld::R(b) => Prf::R(b.generate_proof_response(ch)),
+        }
+    }
+}
+
+impl<const N: usize> Prf<N> {
+    fn feed(&self, cb: ChallengeBuilder) -> ChallengeBuilder {
+        match self {
+            Prf::C1(p) => cb.with(p),
+            Prf::C2(p) => cb.with(p),
+            Prf::S(p) => cb.with(p),
+            Prf::R(p) => cb.with(p),
+        }
+    }
+    fn verify(&self, env: &Env<N>, ch: Challenge) -> bool {
+        match self {
+            Prf::C1(p) => p.verify_knowledge_of_opening(&env.p1, ch),
+            Prf::C2(p) => p.verify_knowledge_of_opening(&env.p2, ch),
+            Prf::S(p) => p.verify_knowledge_of_signature(env.kp.public_key(), ch),
+            Prf::R(p) => p.verify_knowledge_of_opening(env.kp.public_key(), ch).is_some(),
+        }
+    }
+    fn rs(&self) -> [Scalar; N] {
+        match self {
+            Prf::C1(p) => *p.conjunction_response_scalars(),
+            Prf::C2(p) => *p.conjunction_response_scalars(),
+            Prf::S(p) => *p.conjunction_response_scalars(),
+            Prf::R(p) => *p.conjunction_response_scalars(),
+        }
+    }
+}
+
+// ------------------------------------------------------------------------------------------
+// values
+
+const CLASSES: [&str; 5] = ["0", "1", "q-1", "small", "random"];
+
+fn val(rng: &mut R, class: usize) -> Scalar {
+    match class % 5 {
+        0 => Scalar::zero(),
+        1 => Scalar::one(),
+        2 => q_minus_1(),
+        3 => Scalar::from(2 + (rng.next_u32() % 100_000) as u64),
+        _ => Scalar::random(&mut *rng),
+    }
+}
+
+/// message variant v: 0..5 = every entry of one class, then rotating mixtures
+fn message<const N: usize>(rng: &mut R, v: usize) -> ([Scalar; N], String) {
+    let mut m = [Scalar::zero(); N];
+    let mut names = vec![];
+    for i in 0..N {
+        let cl = if v < 5 { v } else { (v + i * (1 + v / 5)) % 5 };
+        m[i] = val(rng, cl);
+        names.push(CLASSES[cl % 5]);
+    }
+    let label = if v < 5 { format!("all:{}", CLASSES[v]) } else { names.join(",") };
+    (m, label)
+}
+
+fn chosen_cs(rng: &mut R, k: usize) -> Scalar {
+    match k % 6 {
+        0 => Scalar::zero(),
+        1 => q_minus_1(),
+        _ => Scalar::random(&mut *rng),
+    }
+}
+
+fn hexs(v: &[Scalar]) -> Vec<String> {
+    v.iter().map(|s| hex(&s.to_bytes())).collect()
+}
+
+/// subsets of slots (bit masks) that get caller-chosen commitment scalars
+fn subsets(c: &Ctx, n: usize, rng: &mut R) -> Vec<u32> {
+    if n <= 5 {
+        return (0..(1u32 << n)).collect();
+    }
+    let full = (1u32 << n) - 1;
+    let mut v = vec![0, full, 1, 1 << (n - 1), full ^ 1, full ^ (1 << (n / 2))];
+    let want = c.tier.pick(12usize, 120);
+    while v.len() < want {
+        let m = rng.next_u32() & full;
+        if !v.contains(&m) {
+            v.push(m);
+        }
+    }
+    v
+}
+
+fn distinct_slots(rng: &mut R, n: usize, k: usize) -> Vec<usize> {
+    let mut v: Vec<usize> = (0..n).collect();
+    for i in 0..k.min(n) {
+        let j = i + (rng.next_u32() as usize) % (n - i);
+        v.swap(i, j);
+    }
+    v.truncate(k.min(n));
+    v
+}
+
+fn panic_report(c: &mut Ctx, what: &str, p: &PanicInfo, detail: Value) {
+    let loc = repo_rel(&p.location);
+    if loc.starts_with("zkchannels-crypto/") || loc.starts_with("zkabacus-crypto/") || loc.starts_with("dep:") || loc.starts_with("std:") {
+        c.violation(&format!("C10 honest-prover-or-verifier-panicked {} loc={}", what, loc), json!({"panic": p.message, "location": p.location, "inputs": detail}));
+    } else {
+        c.inconclusive(&format!("C10: harness panic in {}: {} at {}", what, p.message, p.location));
+    }
+}
+
+// ------------------------------------------------------------------------------------------
+// conjunctions of proofs under one challenge
+
+struct ConjOut<const N: usize> {
+    c: Scalar,
+    ch: Challenge,
+    rs: Vec<[Scalar; N]>,
+    cs: Vec<[Scalar; N]>,
+    range: Option<RangeConstraint>,
+}
+
+/// Derive the challenge from the builders (and public scalars), answer, derive the challenge from
+/// the finished proofs, compare, verify every proof. `sig` is the stable part of violation
+/// signatures.
+fn run_conj<const N: usize>(
+    c: &mut Ctx,
+    env: &Env<N>,
+    sig: &str,
+    blds: Vec<Bld<N>>,
+    publics: &[Scalar],
+    range: Option<(RangeConstraintBuilder, &RangeConstraintParameters)>,
+    detail: &Value,
+) -> Option<ConjOut<N>> {
+    let tys: Vec<Ty> = blds.iter().map(|b| b.ty()).collect();
+    let r = guard(|| {
+        let cs: Vec<[Scalar; N]> = blds.iter().map(|b| b.cs()).collect();
+        let mut cb = ChallengeBuilder::new();
+        if let Some((rb, _)) = &range {
+            cb = cb.with(rb);
+        }
+        for b in &blds {
+            cb = b.feed(cb);
+        }
+        for p in publics {
+            cb = cb.with(p);
+        }
+        let ch_b = cb.finish();
+        let (rc, rp) = match range {
+            Some((rb, rp)) => (Some(rb.generate_constraint_response(ch_b)), Some(rp)),
+            None => (None, None),
+        };
+        let prfs: Vec<Prf<N>> = blds.into_iter().map(|b| b.respond(ch_b)).collect();
+        let mut cb = ChallengeBuilder::new();
+        if let Some(rc) = &rc {
+            cb = cb.with(rc);
+        }
+        for p in &prfs {
+            cb = p.feed(cb);
+        }
+        for p in publics {
+            cb = cb.with(p);
+        }
+        let ch_p = cb.finish();
+        let oks: Vec<bool> = prfs.iter().map(|p| p.verify(env, ch_p)).collect();
+        let rs: Vec<[Scalar; N]> = prfs.iter().map(|p| p.rs()).collect();
+        (cs, ch_b, ch_p, oks, rs, rc, rp)
+    });
+    let (cs, ch_b, ch_p, oks, rs, rc, _rp) = match r {
+        Ok(x) => x,
+        Err(p) => {
+            panic_report(c, sig, &p, detail.clone());
+            return None;
+        }
+    };
+    c.eval();
+    if ch_b.to_scalar() != ch_p.to_scalar() {
+        c.count("challenge_builder!=proof", 1);
+        c.violation(
+            &format!("C10 builder-and-proof-challenges-differ {}", sig),
+            json!({"builder_challenge": hex(&ch_b.to_scalar().to_bytes()), "proof_challenge": hex(&ch_p.to_scalar().to_bytes()), "inputs": detail}),
+        );
+    } else {
+        c.count("challenge_builder==proof", 1);
+    }
+    for (i, ok) in oks.iter().enumerate() {
+        c.eval();
+        if *ok {
+            c.count(&format!("honest_verified[{}]", tys[i].short()), 1);
+        } else {
+            c.count(&format!("honest_rejected[{}]", tys[i].short()), 1);
+            c.violation(
+                &format!("C10 honest-proof-rejected {} proof={}:{}", sig, i, tys[i].short()),
+                json!({"challenge": hex(&ch_p.to_scalar().to_bytes()), "responses": hexs(&rs[i]), "commitment_scalars": hexs(&cs[i]), "inputs": detail}),
+            );
+        }
+    }
+    Some(ConjOut {
+        c: ch_p.to_scalar(),
+        ch: ch_p,
+        rs,
+        cs,
+        range: rc,
+    })
+}
+
+fn relation(c: &mut Ctx, sig: &str, name: &str, holds: bool, detail: &Value) {
+    c.eval();
+    if holds {
+        c.count(&format!("pattern_holds[{}]", name), 1);
+    } else {
+        c.count(&format!("pattern_fails[{}]", name), 1);
+        c.violation(&format!("C10 pattern-relation-failed pattern={} {}", name, sig), json!({"inputs": detail}));
+    }
+}
+
+// ------------------------------------------------------------------------------------------
+// basic completeness: every subset of slots with caller-chosen commitment scalars
+
+fn basic_cases<const N: usize>(c: &mut Ctx) {
+    let variants = c.tier.pick(7usize, 25);
+    for ty in Ty::ALL {
+        for v in 0..variants {
+            let name = format!("basic/{}/N={}/msg{}", ty.short(), N, v);
+            c.case(&name, |c| {
+                let mut rng = c.rng(&name);
+                let env = Env::<N>::new(&mut rng);
+                let (msg, mclass) = message::<N>(&mut rng, v);
+                let masks = subsets(c, N, &mut rng);
+                for (k, mask) in masks.iter().enumerate() {
+                    let mut cs = [None; N];
+                    for i in 0..N {
+                        if (mask >> i) & 1 == 1 {
+                            cs[i] = Some(chosen_cs(&mut rng, k + i));
+                        }
+                    }
+                    let sig = format!("type={} N={}", ty.name(), N);
+                    let detail = json!({"message_classes": mclass, "message": hexs(&msg), "chosen_slots_mask": format!("{:#x}", mask),
+                        "chosen": cs.iter().map(|x| x.map(|s| hex(&s.to_bytes()))).collect::<Vec<_>>()});
+                    let blds = match guard(|| vec![Bld::new(ty, &mut rng, &env, &msg, &cs)]) {
+                        Ok(b) => b,
+                        Err(p) => {
+                            panic_report(c, &sig, &p, detail);
+                            continue;
+                        }
+                    };
+                    c.distinct(&format!("basic/{}/N={}/msg={}/mask={:x}", ty.short(), N, mclass, mask));
+                    c.count(&format!("proofs[{}]", ty.short()), 1);
+                    c.count(&format!("chosen_slots_total[N={}]", N), mask.count_ones() as i64);
+                    let Some(out) = run_conj(c, &env, &sig, blds, &[], None, &detail) else { continue };
+                    // partial opening on every slot: r_i = c*m_i + cs_i, with cs_i the caller's
+                    // value where one was given
+                    let mut all = true;
+                    let mut honoured = true;
+                    for i in 0..N {
+                        let s = cs[i].unwrap_or(out.cs[0][i]);
+                        honoured &= out.cs[0][i] == s;
+                        all &= out.rs[0][i] == out.c * msg[i] + s;
+                    }
+                    relation(c, &sig, "partial-opening(all-slots)", all && honoured, &detail);
+                    if k == 0 && v == 0 {
+                        c.sample(json!({"kind": "basic", "type": ty.name(), "N": N, "message_classes": mclass, "subsets": masks.len(),
+                            "challenge": hex(&out.c.to_bytes())}));
+                    }
+                }
+                verif_hooks::clear();
+            });
+        }
+    }
+}
+
+// ------------------------------------------------------------------------------------------
+// patterns inside one proof
+
+fn within_cases<const N: usize>(c: &mut Ctx) {
+    let insts = c.tier.pick(1usize, 8);
+    for ty in Ty::ALL {
+        for inst in 0..insts {
+            let name = format!("pattern/within/{}/N={}/{}", ty.short(), N, inst);
+            c.case(&name, |c| {
+                let mut rng = c.rng(&name);
+                let env = Env::<N>::new(&mut rng);
+                let base = format!("types={} N={}", ty.short(), N);
+                for cl in 0..5usize {
+                    for cl2 in 0..5usize {
+                        // quick, long tuples: the second class rotates instead of looping
+                        if c.tier.pick(true, false) && N > 5 && cl2 != (cl + inst + 2) % 5 {
+                            continue;
+                        }
+                        let (mut msg, _) = message::<N>(&mut rng, 5 + cl + inst);
+                        let x = val(&mut rng, cl);
+                        let p = val(&mut rng, cl2);
+                        let key = format!("{}/{}", CLASSES[cl], CLASSES[cl2]);
+                        // partial opening of a public value with a caller-chosen commitment scalar
+                        {
+                            let s = distinct_slots(&mut rng, N, 1);
+                            let mut m = msg;
+                            m[s[0]] = p;
+                            let mut cs = [None; N];
+                            let k = chosen_cs(&mut rng, cl + cl2);
+                            cs[s[0]] = Some(k);
+                            let detail = json!({"pattern": "partial-opening", "public": hex(&p.to_bytes()), "commitment_scalar": hex(&k.to_bytes()), "slot": s[0], "message": hexs(&m)});
+                            if let Ok(b) = guard(|| Bld::new(ty, &mut rng, &env, &m, &cs)).map_err(|e| panic_report(c, &base, &e, detail.clone())) {
+                                c.distinct(&format!("within/partial-opening/{}/N={}/{}", ty.short(), N, key));
+                                // the public value and its commitment scalar go into the challenge
+                                if let Some(o) = run_conj(c, &env, &base, vec![b], &[p, k], None, &detail) {
+                                    relation(c, &base, "partial-opening", o.c * p + k == o.rs[0][s[0]], &detail);
+                                }
+                            }
+                        }
+                        if N >= 2 {
+                            let s = distinct_slots(&mut rng, N, 2);
+                            let (i, j) = (s[0], s[1]);
+                            // equality within one proof
+                            {
+                                msg[i] = x;
+                                msg[j] = x;
+                                let mut cs = [None; N];
+                                let k = chosen_cs(&mut rng, 2 + cl2);
+                                cs[i] = Some(k);
+                                cs[j] = Some(k);
+                                let detail = json!({"pattern": "equality-within", "slots": [i, j], "message": hexs(&msg)});
+                                if let Ok(b) = guard(|| Bld::new(ty, &mut rng, &env, &msg, &cs)).map_err(|e| panic_report(c, &base, &e, detail.clone())) {
+                                    c.distinct(&format!("within/equality/{}/N={}/{}", ty.short(), N, key));
+                                    if let Some(o) = run_conj(c, &env, &base, vec![b], &[], None, &detail) {
+                                        relation(c, &base, "equality-within", o.rs[0][i] == o.rs[0][j], &detail);
+                                    }
+                                }
+                            }
+                            // public addition within one proof: m_j = m_i + p, same commitment scalar
+                            {
+                                msg[i] = x;
+                                msg[j] = x + p;
+                                let mut cs = [None; N];
+                                let k = chosen_cs(&mut rng, 3 + cl);
+                                cs[i] = Some(k);
+                                cs[j] = Some(k);
+                                let detail = json!({"pattern": "public-addition-within", "slots": [i, j], "public": hex(&p.to_bytes()), "message": hexs(&msg)});
+                                if let Ok(b) = guard(|| Bld::new(ty, &mut rng, &env, &msg, &cs)).map_err(|e| panic_report(c, &base, &e, detail.clone())) {
+                                    c.distinct(&format!("within/public-addition/{}/N={}/{}", ty.short(), N, key));
+                                    if let Some(o) = run_conj(c, &env, &base, vec![b], &[p], None, &detail) {
+                                        relation(c, &base, "public-addition-within", o.rs[0][j] == o.rs[0][i] + o.c * p, &detail);
+                                    }
+                                }
+                            }
+                            // public product within one proof: m_j = m_i * p, cs_j = cs_i * p
+                            {
+                                msg[i] = x;
+                                msg[j] = x * p;
+                                let mut cs = [None; N];
+                                let k = chosen_cs(&mut rng, 4 + cl);
+                                cs[i] = Some(k);
+                                cs[j] = Some(k * p);
+                                let detail = json!({"pattern": "public-product-within", "slots": [i, j], "public": hex(&p.to_bytes()), "message": hexs(&msg)});
+                                if let Ok(b) = guard(|| Bld::new(ty, &mut rng, &env, &msg, &cs)).map_err(|e| panic_report(c, &base, &e, detail.clone())) {
+                                    c.distinct(&format!("within/public-product/{}/N={}/{}", ty.short(), N, key));
+                                    if let Some(o) = run_conj(c, &env, &base, vec![b], &[p], None, &detail) {
+                                        relation(c, &base, "public-product-within", o.rs[0][j] == o.rs[0][i] * p, &detail);
+                                    }
+                                }
+                            }
+                        }
+                        if N >= 3 {
+                            // secret sum within one proof: m_k = m_i + m_j, cs_k = cs_i + cs_j
+                            let s = distinct_slots(&mut rng, N, 3);
+                            let (i, j, k) = (s[0], s[1], s[2]);
+                            msg[i] = x;
+                            msg[j] = p;
+                            msg[k] = x + p;
+                            let mut cs = [None; N];
+                            let (a, b_) = (chosen_cs(&mut rng, cl), chosen_cs(&mut rng, 2 + cl2));
+                            cs[i] = Some(a);
+                            cs[j] = Some(b_);
+                            cs[k] = Some(a + b_);
+                            let detail = json!({"pattern": "secret-sum-within", "slots": [i, j, k], "message": hexs(&msg)});
+                            if let Ok(b) = guard(|| Bld::new(ty, &mut rng, &env, &msg, &cs)).map_err(|e| panic_report(c, &base, &e, detail.clone())) {
+                                c.distinct(&format!("within/secret-sum/{}/N={}/{}", ty.short(), N, key));
+                                if let Some(o) = run_conj(c, &env, &base, vec![b], &[], None, &detail) {
+                                    relation(c, &base, "secret-sum-within", o.rs[0][k] == o.rs[0][i] + o.rs[0][j], &detail);
+                                }
+                            }
+                        }
+                    }
+                }
+                verif_hooks::clear();
+            });
+        }
+    }
+}
+
+// ------------------------------------------------------------------------------------------
+// patterns across two and three proofs of the same length
+
+fn across_cases<const N: usize>(c: &mut Ctx) {
+    let insts = c.tier.pick(1usize, 6);
+    for ta in Ty::ALL {
+        for inst in 0..insts {
+            let name = format!("pattern/across/{}/N={}/{}", ta.short(), N, inst);
+            c.case(&name, |c| {
+                let mut rng = c.rng(&name);
+                let env = Env::<N>::new(&mut rng);
+                for (bi, tb) in Ty::ALL.into_iter().enumerate() {
+                    let base = format!("types={}+{} N={}", ta.short(), tb.short(), N);
+                    for cl in 0..5usize {
+                        // quick, long tuples: one class per pair instead of five
+                        if c.tier.pick(true, false) && N > 5 && cl != (bi + inst) % 5 {
+                            continue;
+                        }
+                        let cl2 = (cl + bi + inst + 1) % 5;
+                        let x = val(&mut rng, cl);
+                        let p = val(&mut rng, cl2);
+                        let key = format!("{}+{}/N={}/{}/{}", ta.short(), tb.short(), N, CLASSES[cl], CLASSES[cl2]);
+                        let i = distinct_slots(&mut rng, N, 1)[0];
+                        let j = distinct_slots(&mut rng, N, 1)[0];
+                        let (mut ma, _) = message::<N>(&mut rng, 5 + cl);
+                        let (mut mb, _) = message::<N>(&mut rng, 6 + cl2);
+                        ma[i] = x;
+                        // the three two-proof relations: (name, value in B's slot, cs of B's slot from A's)
+                        for rel in ["equality-across", "public-addition-across", "public-product-across"] {
+                            mb[j] = match rel {
+                                "equality-across" => x,
+                                "public-addition-across" => x + p,
+                                _ => x * p,
+                            };
+                            let detail = json!({"pattern": rel, "slots": [i, j], "public": hex(&p.to_bytes()), "message_a": hexs(&ma), "message_b": hexs(&mb)});
+                            let built = guard(|| {
+                                let a = Bld::new(ta, &mut rng, &env, &ma, &[None; N]);
+                                let mut cs = [None; N];
+                                cs[j] = Some(if rel == "public-product-across" { a.cs()[i] * p } else { a.cs()[i] });
+                                let b = Bld::new(tb, &mut rng, &env, &mb, &cs);
+                                vec![a, b]
+                            });
+                            let blds = match built {
+                                Ok(b) => b,
+                                Err(e) => {
+                                    panic_report(c, &base, &e, detail);
+                                    continue;
+                                }
+                            };
+                            c.distinct(&format!("across/{}/{}", rel, key));
+                            let publics: Vec<Scalar> = if rel == "equality-across" { vec![] } else { vec![p] };
+                            if let Some(o) = run_conj(c, &env, &base, blds, &publics, None, &detail) {
+                                let (ra, rb) = (o.rs[0][i], o.rs[1][j]);
+                                let holds = match rel {
+                                    "equality-across" => rb == ra,
+                                    "public-addition-across" => rb == ra + o.c * p,
+                                    _ => rb == ra * p,
+                                };
+                                relation(c, &base, rel, holds, &detail);
+                            }
+                        }
+                        // secret sum across three proofs: A.i + B.j = C.k, cs_C.k = cs_A.i + cs_B.j
+                        {
+                            let tc = Ty::ALL[(bi + cl + inst) % 4];
+                            let base3 = format!("types={}+{}+{} N={}", ta.short(), tb.short(), tc.short(), N);
+                            let k = distinct_slots(&mut rng, N, 1)[0];
+                            let (mut mc, _) = message::<N>(&mut rng, 7 + cl);
+                            mb[j] = p;
+                            mc[k] = x + p;
+                            let detail = json!({"pattern": "secret-sum-across", "slots": [i, j, k], "message_a": hexs(&ma), "message_b": hexs(&mb), "message_c": hexs(&mc)});
+                            let built = guard(|| {
+                                let a = Bld::new(ta, &mut rng, &env, &ma, &[None; N]);
+                                let b = Bld::new(tb, &mut rng, &env, &mb, &[None; N]);
+                                let mut cs = [None; N];
+                                cs[k] = Some(a.cs()[i] + b.cs()[j]);
+                                let d = Bld::new(tc, &mut rng, &env, &mc, &cs);
+                                vec![a, b, d]
+                            });
+                            match built {
+                                Ok(blds) => {
+                                    c.distinct(&format!("across/secret-sum/{}+{}", key, tc.short()));
+                                    if let Some(o) = run_conj(c, &env, &base3, blds, &[], None, &detail) {
+                                        relation(c, &base3, "secret-sum-across", o.rs[2][k] == o.rs[0][i] + o.rs[1][j], &detail);
+                                    }
+                                }
+                                Err(e) => panic_report(c, &base3, &e, detail),
+                            }
+                        }
+                    }
+                }
+                verif_hooks::clear();
+            });
+        }
+    }
+}
+
+// ------------------------------------------------------------------------------------------
+// equality across two proofs of different lengths
+
+fn cross_len<const N: usize, const M: usize>(c: &mut Ctx) {
+    let name = format!("pattern/cross-length/N={}+M={}", N, M);
+    c.case(&name, |c| {
+        let mut rng = c.rng(&name);
+        let ea = Env::<N>::new(&mut rng);
+        let eb = Env::<M>::new(&mut rng);
+        let reps = c.tier.pick(1usize, 5);
+        for rep in 0..reps {
+            for (ai, ta) in Ty::ALL.into_iter().enumerate() {
+                for (bi, tb) in Ty::ALL.into_iter().enumerate() {
+                    let cl = (ai * 4 + bi + rep) % 5;
+                    let x = val(&mut rng, cl);
+                    let p = val(&mut rng, cl + 2);
+                    let i = distinct_slots(&mut rng, N, 1)[0];
+                    let j = distinct_slots(&mut rng, M, 1)[0];
+                    let (mut ma, _) = message::<N>(&mut rng, 5 + cl);
+                    let (mut mb, _) = message::<M>(&mut rng, 6 + cl);
+                    ma[i] = x;
+                    mb[j] = x + p;
+                    let sig = format!("types={}+{} N={}+{}", ta.short(), tb.short(), N, M);
+                    let detail = json!({"pattern": "public-addition-across-lengths", "slots": [i, j], "public": hex(&p.to_bytes()), "message_a": hexs(&ma), "message_b": hexs(&mb)});
+                    let r = guard(|| {
+                        let a = Bld::new(ta, &mut rng, &ea, &ma, &[None; N]);
+                        let mut cs = [None; M];
+                        cs[j] = Some(a.cs()[i]);
+                        let b = Bld::new(tb, &mut rng, &eb, &mb, &cs);
+                        let ch_b = b.feed(a.feed(ChallengeBuilder::new())).with(&p).finish();
+                        let pa = a.respond(ch_b);
+                        let pb = b.respond(ch_b);
+                        let ch_p = pb.feed(pa.feed(ChallengeBuilder::new())).with(&p).finish();
+                        (ch_b.to_scalar(), ch_p.to_scalar(), pa.verify(&ea, ch_p), pb.verify(&eb, ch_p), pa.rs()[i], pb.rs()[j])
+                    });
+                    let (cb, cp, oka, okb, ra, rb) = match r {
+                        Ok(x) => x,
+                        Err(e) => {
+                            panic_report(c, &sig, &e, detail);
+                            continue;
+                        }
+                    };
+                    c.distinct(&format!("cross-length/{}+{}/{}+{}/{}", ta.short(), tb.short(), N, M, CLASSES[cl]));
+                    c.eval();
+                    if cb != cp {
+                        c.count("challenge_builder!=proof", 1);
+                        c.violation(&format!("C10 builder-and-proof-challenges-differ {}", sig), json!({"inputs": detail}));
+                    } else {
+                        c.count("challenge_builder==proof", 1);
+                    }
+                    for (ok, t) in [(oka, ta), (okb, tb)] {
+                        c.eval();
+                        if ok {
+                            c.count(&format!("honest_verified[{}]", t.short()), 1);
+                        } else {
+                            c.count(&format!("honest_rejected[{}]", t.short()), 1);
+                            c.violation(&format!("C10 honest-proof-rejected {} proof={}", sig, t.short()), json!({"inputs": detail}));
+                        }
+                    }
+                    relation(c, &sig, "public-addition-across", rb == ra + cp * p, &detail);
+                }
+            }
+        }
+        verif_hooks::clear();
+    });
+}
+
+// ------------------------------------------------------------------------------------------
+// four proofs (and a range constraint) under one challenge
+
+fn conj4_cases<const N: usize>(c: &mut Ctx, m: &'static Merchant) {
+    let insts = c.tier.pick(1usize, 6);
+    for rot in 0..4usize {
+        for inst in 0..insts {
+            let name = format!("pattern/four-proofs/N={}/rot{}/{}", N, rot, inst);
+            c.case(&name, |c| {
+                let mut rng = c.rng(&name);
+                let env = Env::<N>::new(&mut rng);
+                let tys: Vec<Ty> = (0..4).map(|k| Ty::ALL[(k + rot) % 4]).collect();
+                let tnames = tys.iter().map(|t| t.short()).collect::<Vec<_>>().join("+");
+                // (a) the same message in all four, every commitment scalar shared
+                for v in [rot + inst, 5 + rot + inst] {
+                    let (msg, mclass) = message::<N>(&mut rng, v % 10);
+                    let sig = format!("types={} N={}", tnames, N);
+                    let detail = json!({"pattern": "four-proofs-same-message", "message": hexs(&msg), "message_classes": mclass});
+                    let built = guard(|| {
+                        let a = Bld::new(tys[0], &mut rng, &env, &msg, &[None; N]);
+                        let mut cs = [None; N];
+                        for i in 0..N {
+                            cs[i] = Some(a.cs()[i]);
+                        }
+                        let mut v = vec![a];
+                        for t in &tys[1..] {
+                            v.push(Bld::new(*t, &mut rng, &env, &msg, &cs));
+                        }
+                        v
+                    });
+                    match built {
+                        Ok(blds) => {
+                            c.distinct(&format!("four/same/{}/N={}/{}", tnames, N, mclass));
+                            if let Some(o) = run_conj(c, &env, &sig, blds, &[], None, &detail) {
+                                relation(c, &sig, "equality-across(four-proofs)", o.rs[1] == o.rs[0] && o.rs[2] == o.rs[0] && o.rs[3] == o.rs[0], &detail);
+                            }
+                        }
+                        Err(e) => panic_report(c, &sig, &e, detail),
+                    }
+                }
+                // (b) a chain: A.a = x (range-constrained), B.b = x + p, C.c = x * p2, D.d = B.b + C.c
+                {
+                    let rp: &RangeConstraintParameters = m.ccfg.range_constraint_parameters();
+                    let xv: i64 = match (rot + inst) % 4 {
+                        0 => 0,
+                        1 => i64::MAX,
+                        2 => 128,
+                        _ => (rng.next_u64() >> 1) as i64,
+                    };
+                    let x = Scalar::from(xv as u64);
+                    let p = val(&mut rng, rot + inst);
+                    let p2 = val(&mut rng, rot + inst + 3);
+                    let sl: Vec<usize> = (0..4).map(|_| distinct_slots(&mut rng, N, 1)[0]).collect();
+                    let mut ms: Vec<[Scalar; N]> = (0..4).map(|k| message::<N>(&mut rng, 5 + k + inst).0).collect();
+                    ms[0][sl[0]] = x;
+                    ms[1][sl[1]] = x + p;
+                    ms[2][sl[2]] = x * p2;
+                    ms[3][sl[3]] = x + p + x * p2;
+                    let sig = format!("types=Range+{} N={}", tnames, N);
+                    let detail = json!({"pattern": "four-proofs-chain", "range_value": xv.to_string(), "slots": sl, "public_add": hex(&p.to_bytes()), "public_mul": hex(&p2.to_bytes()),
+                        "messages": ms.iter().map(|m| hexs(m)).collect::<Vec<_>>()});
+                    let built = guard(|| {
+                        let rb = RangeConstraintBuilder::generate_constraint_commitments(xv, rp, &mut rng);
+                        let rb = match rb {
+                            Ok(rb) => rb,
+                            Err(_) => return None,
+                        };
+                        let mut cs = [None; N];
+                        cs[sl[0]] = Some(rb.commitment_scalar());
+                        let a = Bld::new(tys[0], &mut rng, &env, &ms[0], &cs);
+                        let mut cs = [None; N];
+                        cs[sl[1]] = Some(a.cs()[sl[0]]);
+                        let b = Bld::new(tys[1], &mut rng, &env, &ms[1], &cs);
+                        let mut cs = [None; N];
+                        cs[sl[2]] = Some(a.cs()[sl[0]] * p2);
+                        let d = Bld::new(tys[2], &mut rng, &env, &ms[2], &cs);
+                        let mut cs = [None; N];
+                        cs[sl[3]] = Some(b.cs()[sl[1]] + d.cs()[sl[2]]);
+                        let e = Bld::new(tys[3], &mut rng, &env, &ms[3], &cs);
+                        Some((rb, vec![a, b, d, e]))
+                    });
+                    match built {
+                        Ok(Some((rb, blds))) => {
+                            c.distinct(&format!("four/chain/{}/N={}/{}", tnames, N, class_u64(xv as u64)));
+                            if let Some(o) = run_conj(c, &env, &sig, blds, &[p, p2], Some((rb, rp)), &detail) {
+                                let (ra, rb_, rc, rd) = (o.rs[0][sl[0]], o.rs[1][sl[1]], o.rs[2][sl[2]], o.rs[3][sl[3]]);
+                                relation(c, &sig, "public-addition-across", rb_ == ra + o.c * p, &detail);
+                                relation(c, &sig, "public-product-across", rc == ra * p2, &detail);
+                                relation(c, &sig, "secret-sum-across", rd == rb_ + rc, &detail);
+                                match &o.range {
+                                    Some(rcst) => {
+                                        let ok = guard(|| rcst.verify_range_constraint(rp, o.ch, ra));
+                                        match ok {
+                                            Ok(ok) => relation(c, &sig, "range-link", ok, &detail),
+                                            Err(e) => panic_report(c, &sig, &e, detail.clone()),
+                                        }
+                                    }
+                                    None => c.inconclusive("C10: range constraint missing from conjunction output"),
+                                }
+                            }
+                        }
+                        Ok(None) => {
+                            c.eval();
+                            c.violation(&format!("C10 range-prover-refused-in-range-value value={}", class_u64(xv as u64)), json!({"value": xv.to_string()}));
+                        }
+                        Err(e) => panic_report(c, &sig, &e, detail),
+                    }
+                }
+                verif_hooks::clear();
+            });
+        }
+    }
+}
+
+// ------------------------------------------------------------------------------------------
+// range constraints linked to one slot of a proof
+
+fn range_values(c: &Ctx) -> Vec<(String, i64)> {
+    let mut v: Vec<(String, i64)> = vec![("0".into(), 0), ("1".into(), 1)];
+    for k in 1..=8u32 {
+        let p = 128i64.pow(k);
+        v.push((format!("128^{}-1", k), p - 1));
+        v.push((format!("128^{}", k), p));
+    }
+    v.push(("2^63-1".into(), i64::MAX));
+    let mut rng = c.rng("range-values");
+    for k in 0..c.tier.pick(3usize, 40) {
+        let bits = 1 + (rng.next_u32() % 63);
+        let x = (rng.next_u64() >> (64 - bits)) as i64;
+        v.push((format!("random{}", k), x & i64::MAX));
+    }
+    v
+}
+
+/// sum_j U^j * r_j over the digit response scalars read from the wire form of the constraint
+fn wire_digit_sum(rc: &RangeConstraint, radix: u64) -> Result<(Scalar, usize), String> {
+    let t = trace(rc)?;
+    let mut acc = Scalar::zero();
+    let mut pw = Scalar::one();
+    let mut j = 0;
+    loop {
+        let path = format!("digit_proofs/[{}]/commitment_proof/message_response_scalars/[0]", j);
+        if t.by_fpath(&path).is_empty() {
+            break;
+        }
+        let r = sc(&t.fget(&path)?).ok_or("range constraint: digit response is not a canonical scalar")?;
+        acc += pw * r;
+        pw *= Scalar::from(radix);
+        j += 1;
+    }
+    if j == 0 {
+        return Err("range constraint: no digit proofs found in the traced layout".into());
+    }
+    Ok((acc, j))
+}
+
+fn range_case<const N: usize>(c: &mut Ctx, m: &'static Merchant, ty: Ty, vname: &str, v: i64, pos_seed: usize) {
+    let pos = pos_seed % N;
+    let name = format!("range/{}/v={}/N={}/pos={}", ty.short(), vname, N, pos);
+    c.case(&name, |c| {
+        let mut rng = c.rng(&name);
+        let env = Env::<N>::new(&mut rng);
+        let rp: &RangeConstraintParameters = m.ccfg.range_constraint_parameters();
+        let vclass = if vname.starts_with("random") { "random".to_string() } else { vname.to_string() };
+        let sig = format!("types=Range+{} N={} value={}", ty.short(), N, vclass);
+        let (mut msg, _) = message::<N>(&mut rng, 5 + pos_seed);
+        msg[pos] = Scalar::from(v as u64);
+        let detail = json!({"pattern": "range-link", "value": v.to_string(), "slot": pos, "message": hexs(&msg)});
+        // the range builder alone: builder challenge = constraint challenge
+        let built = guard(|| {
+            let rb = match RangeConstraintBuilder::generate_constraint_commitments(v, rp, &mut rng) {
+                Ok(rb) => rb,
+                Err(_) => return None,
+            };
+            let alone_b = ChallengeBuilder::new().with(&rb).finish().to_scalar();
+            let mut cs = [None; N];
+            cs[pos] = Some(rb.commitment_scalar());
+            let b = Bld::new(ty, &mut rng, &env, &msg, &cs);
+            Some((rb, alone_b, b))
+        });
+        let (rb, alone_b, b) = match built {
+            Ok(Some(x)) => x,
+            Ok(None) => {
+                c.eval();
+                c.violation(&format!("C10 range-prover-refused-in-range-value value={}", vclass), json!({"value": v.to_string()}));
+                return;
+            }
+            Err(e) => return panic_report(c, &sig, &e, detail),
+        };
+        c.distinct(&format!("range/{}/N={}/pos={}/{}", ty.short(), N, pos, vname));
+        c.count("range_constraints", 1);
+        let Some(o) = run_conj(c, &env, &sig, vec![b], &[], Some((rb, rp)), &detail) else { return };
+        let Some(rc) = &o.range else { return c.inconclusive("C10: range constraint missing from conjunction output") };
+        c.eval();
+        let alone_p = ChallengeBuilder::new().with(rc).finish().to_scalar();
+        if alone_b != alone_p {
+            c.count("challenge_builder!=proof", 1);
+            c.violation(&format!("C10 builder-and-proof-challenges-differ types=Range value={}", vclass), json!({"inputs": detail}));
+        } else {
+            c.count("challenge_builder==proof", 1);
+        }
+        match guard(|| rc.verify_range_constraint(rp, o.ch, o.rs[0][pos])) {
+            Ok(ok) => {
+                relation(c, &sig, "range-link", ok, &detail);
+                if ok {
+                    c.count("honest_verified[Range]", 1);
+                } else {
+                    c.count("honest_rejected[Range]", 1);
+                }
+            }
+            Err(e) => panic_report(c, &sig, &e, detail.clone()),
+        }
+        // the same link read from the wire: sum U^j r_j == response of the linked slot, with U the
+        // number of published digit signatures (an observation, not a refuting event by itself)
+        match wire_digit_sum(rc, m.digit_sigs.len() as u64) {
+            Ok((sum, digits)) => {
+                c.max("digits_in_constraint", digits as i64);
+                if sum == o.rs[0][pos] {
+                    c.count("range_link_sum_matches_on_the_wire", 1);
+                } else {
+                    c.count("range_link_sum_differs_on_the_wire", 1);
+                }
+            }
+            Err(e) => c.inconclusive(&e),
+        }
+        if v == i64::MAX {
+            c.sample(json!({"kind": "range", "type": ty.name(), "N": N, "slot": pos, "value": v.to_string(), "challenge": hex(&o.c.to_bytes())}));
+        }
+        verif_hooks::clear();
+    });
+}
+
+fn range_dispatch(c: &mut Ctx, m: &'static Merchant, n: usize, ty: Ty, vname: &str, v: i64, pos_seed: usize) {
+    match n {
+        1 => range_case::<1>(c, m, ty, vname, v, pos_seed),
+        2 => range_case::<2>(c, m, ty, vname, v, pos_seed),
+        3 => range_case::<3>(c, m, ty, vname, v, pos_seed),
+        5 => range_case::<5>(c, m, ty, vname, v, pos_seed),
+        8 => range_case::<8>(c, m, ty, vname, v, pos_seed),
+        _ => range_case::<13>(c, m, ty, vname, v, pos_seed),
+    }
+}
+
+const NS: [usize; 6] = [1, 2, 3, 5, 8, 13];
+
+fn range_cases(c: &mut Ctx, m: &'static Merchant) {
+    let values = range_values(c);
+    let thorough = c.tier.pick(false, true);
+    for (vi, (vname, v)) in values.iter().enumerate() {
+        for (ti, ty) in Ty::ALL.into_iter().enumerate() {
+            if thorough {
+                for (ni, n) in NS.into_iter().enumerate() {
+                    let p1 = (vi + ti) % n;
+                    range_dispatch(c, m, n, ty, vname, *v, p1);
+                    if n > 1 {
+                        // a second, different slot
+                        range_dispatch(c, m, n, ty, vname, *v, (p1 + 1 + ni % (n - 1)) % n);
+                    }
+                }
+            } else {
+                // three tuple lengths per (value, type), rotating so that every length and many
+                // slots are reached
+                for k in 0..3usize {
+                    let n = NS[(vi + ti + 2 * k) % 6];
+                    range_dispatch(c, m, n, ty, vname, *v, vi + ti * 3 + k * 5);
+                }
+            }
+        }
+    }
+}
 
 pub fn run(c: &mut Ctx) {
-    c.inconclusive("C10: monitor not written yet");
+    c.note(
+        "rule",
+        json!("basic: for N in {1,2,3,5,8,13} x {CommitmentProof<G1>, CommitmentProof<G2>, SignatureProof, SignatureRequestProof} x message variants (every entry 0 / 1 / q-1 / small / random, then rotating mixtures) x every subset of slots with caller-chosen commitment scalars (0, q-1, random) for N<=5 and sampled subsets for N=8,13: builder challenge == proof challenge, proof verifies, r_i == c*m_i + cs_i on every slot. patterns: partial opening, equality, public addition, public product, secret sum inside one proof and across 2-3 proofs of every ordered type pair, across proofs of different lengths, four proofs sharing all scalars, and a four-proof chain with a range constraint under one challenge; shared / public values from the five classes. range: values {0,1,128^k-1,128^k (k=1..8),2^63-1,random} linked to a slot of every proof type. Distinct = distinct (family, types, N, value classes, subset mask or slot)."),
+    );
+    let m = match fixtures::merchant(c.seed, "m0") {
+        Ok(m) => m,
+        Err(e) => return c.inconclusive(&e),
+    };
+    verif_hooks::clear();
+    basic_cases::<1>(c);
+    basic_cases::<2>(c);
+    basic_cases::<3>(c);
+    basic_cases::<5>(c);
+    basic_cases::<8>(c);
+    basic_cases::<13>(c);
+    within_cases::<1>(c);
+    within_cases::<2>(c);
+    within_cases::<3>(c);
+    within_cases::<5>(c);
+    within_cases::<8>(c);
+    within_cases::<13>(c);
+    across_cases::<1>(c);
+    across_cases::<2>(c);
+    across_cases::<3>(c);
+    across_cases::<5>(c);
+    across_cases::<8>(c);
+    across_cases::<13>(c);
+    cross_len::<1, 5>(c);
+    cross_len::<2, 3>(c);
+    cross_len::<5, 13>(c);
+    cross_len::<8, 1>(c);
+    cross_len::<3, 8>(c);
+    cross_len::<13, 2>(c);
+    conj4_cases::<1>(c, m);
+    conj4_cases::<2>(c, m);
+    conj4_cases::<3>(c, m);
+    conj4_cases::<5>(c, m);
+    conj4_cases::<8>(c, m);
+    conj4_cases::<13>(c, m);
+    range_cases(c, m);
 }
